@@ -270,11 +270,20 @@ def sameStructure (ls : List Link) (up down : List RObj) : Bool :=
     | some lu, some ld => ld.parent == some u.gp && lu.arity == 1 && !(checkMemory && lu.marity != 0)
     | _, _ => false)
 
+/-- the child that replaces its parent stands for everything that was below the parent: it takes over the parent's complete
+    sets (hwloc_bitmap_or of complete_cpuset / complete_nodeset in the replace-parent branch, fixes e57fd49 + 5bd7047) -/
+def absorb (o co : RObj) : RObj := { co with ccpuset := co.ccpuset ||| o.ccpuset, cnodeset := co.cnodeset ||| o.cnodeset }
+/-- … only when the parent has memory children to hand over (`if (parent->memory_first_child)`): they are the only moved
+    objects that carry sets, and a PU child (never merged with a parent that has memory children) keeps its singleton -/
+def absorbIf (ms : List Tree) (o co : RObj) : RObj := if ms.isEmpty then co else absorb o co
+
 /-- merge an object with its single normal child: with `replaceChild` the parent stays and takes the child's normal children,
-    otherwise the child takes the parent's place; in both cases the memory, I/O and Misc lists become parent's ++ child's -/
+    otherwise the child (with the parent's complete sets or-ed in when the parent has memory children) takes the parent's place; in both cases the memory, I/O and
+    Misc lists become parent's ++ child's -/
 def mergeNode (replaceChild : Bool) (o : RObj) (ns ms ios mis : List Tree) : Tree :=
   match ns with
-  | [.node co cns cms cios cmis] => .node (if replaceChild then o else co) cns (ms ++ cms) (ios ++ cios) (mis ++ cmis)
+  | [.node co cns cms cios cmis] =>
+    .node (if replaceChild then o else absorbIf ms o co) cns (ms ++ cms) (ios ++ cios) (mis ++ cmis)
   | _ => .node o ns ms ios mis
 
 mutual
